@@ -407,7 +407,7 @@ async fn on_connected(
             // No need to wait for stuff to finish because not even the first stream request went through
             return Ok(());
         } else {
-            return Err(e);
+            return Err(mux_task_verdict(&mut mux_task_joinset, e).await);
         }
     }
     // Main loop
@@ -425,7 +425,7 @@ async fn on_connected(
                     if matches!(e, Error::Cancelled) {
                         break;
                     } else {
-                        return Err(e);
+                        return Err(mux_task_verdict(&mut mux_task_joinset, e).await);
                     }
                 }
             }
@@ -456,6 +456,24 @@ async fn on_connected(
         result.expect("Task panicked (this is a bug)")?;
     }
     Ok(())
+}
+
+/// A stream request only learns that the multiplexor is `Closed`; the multiplexor task
+/// knows why. If the task ended with an error, report that one, so that the retry loop
+/// classifies the real cause (and a non-retryable one ends the client instead of being
+/// retried forever as `Closed`).
+async fn mux_task_verdict(
+    mux_task_joinset: &mut JoinSet<penguin_mux::Result<()>>,
+    e: Error,
+) -> Error {
+    if !matches!(e, Error::Mux(penguin_mux::Error::Closed)) {
+        return e;
+    }
+    // The task is winding down at this point; do not wait for it for long in any case.
+    match time::timeout(Duration::from_secs(1), mux_task_joinset.join_next()).await {
+        Ok(Some(Ok(Err(task_error)))) => task_error.into(),
+        _ => e,
+    }
 }
 
 /// Get a new channel from the multiplexor and send it to the handler.
